@@ -28,6 +28,10 @@ structure Env where
   tbl : List ObjSchema
   algNames : List (String × Nat)
   fileExists : String → Bool
+  /-- behaviour switch (finding F15): what `_transform_config` substitutes for `request_policy.dns_ttl
+      == 0` when the `ksk_policy` section has no `ttl` — `none`: it raises `KeyError` (the pinned
+      behaviour), `some t`: it falls back to `t` (the default TTL).  Tabulated by execution. -/
+  kskTtlFallback : Option CVal := none
 
 /-! ### characters, patterns -/
 
@@ -465,6 +469,36 @@ def isExtraKey (s : ObjSchema) (k : CVal) : Bool :=
 def applyStrToList (f : Field) (v : CVal) : CVal :=
   if f.strToList then (match v with | .str s => .list [.str s] | _ => v) else v
 
+/-- a key of a `Mapping[str | int, …]`: int keys go through the lax `int`, str keys must be strings -/
+def valKey (intKeys : Bool) (k : CVal) : Res (Option CVal) :=
+  if intKeys then do
+    let i ← laxInt k
+    pure (i.map .int)
+  else pure (if keyIsStr k then some k else none)
+
+/-- one entry of a mapping: key, then value -/
+def valEntry (intKeys : Bool) (rec : CVal → Res (Option CVal)) (kv : CVal × CVal) :
+    Res (Option (CVal × CVal)) := do
+  let k ← valKey intKeys kv.1
+  let x ← rec kv.2
+  pure (match k, x with
+    | some k, some x => some (k, x)
+    | _, _ => none)
+
+/-- one declared option of a model: absent → its default (a required one is an error),
+    present → validated (after the `turn_into_list` before-validator) in the MODEL's own mode -/
+def valField (rec : Bool → STy → CVal → Res (Option CVal)) (s : ObjSchema) (kvs : List (CVal × CVal))
+    (f : Field) : Res (Option (CVal × CVal)) :=
+  match CVal.lookupStr kvs f.name with
+  | none => pure (if f.required then none else f.default.map fun d => (CVal.str f.name, d))
+  | some x => do
+    let y ← rec s.strict f.ty (applyStrToList f x)
+    pure (y.map fun y => (CVal.str f.name, y))
+
+/-- unknown / non-string keys: refused unless the model allows extras (then they are dropped) -/
+def hasExtras (s : ObjSchema) (kvs : List (CVal × CVal)) : Bool :=
+  kvs.any fun kv => if s.additionalProperties then !keyIsStr kv.1 else isExtraKey s kv.1
+
 /-- `model_validate` against a schema type, with the recursion depth as fuel (the schema table is
     finite and not recursive: depth 8 is never reached by `KSKMConfig`). -/
 def validate (env : Env) : Nat → Bool → STy → CVal → Res (Option CVal)
@@ -486,15 +520,7 @@ def validate (env : Env) : Nat → Bool → STy → CVal → Res (Option CVal)
     | .mapOf intKeys val =>
       match v with
       | .map kvs => do
-        let r ← sequenceV (kvs.map fun kv => do
-          let k ← (if intKeys then do
-                      let k ← laxInt kv.1
-                      pure (k.map .int)
-                   else pure (if keyIsStr kv.1 then some kv.1 else none) : Res (Option CVal))
-          let x ← validate env fuel strict val kv.2
-          pure (match k, x with
-            | some k, some x => some (k, x)
-            | _, _ => none))
+        let r ← sequenceV (kvs.map (valEntry intKeys (validate env fuel strict val)))
         match r with
         | none => pure none
         | some out =>
@@ -507,15 +533,8 @@ def validate (env : Env) : Nat → Bool → STy → CVal → Res (Option CVal)
       | some s =>
         match v with
         | .map kvs => do
-          let r ← sequenceV (s.fields.map fun f =>
-            match CVal.lookupStr kvs f.name with
-            | none => pure (if f.required then none else f.default.map fun d => (CVal.str f.name, d))
-            | some x => do
-              let y ← validate env fuel s.strict f.ty (applyStrToList f x)
-              pure (y.map fun y => (CVal.str f.name, y)))
-          -- unknown / non-string keys: refused unless the model allows extras (then they are dropped)
-          let extras := kvs.any fun kv => if s.additionalProperties then !keyIsStr kv.1 else isExtraKey s kv.1
-          pure (if extras then none else r.map .map)
+          let r ← sequenceV (s.fields.map (valField (validate env fuel) s kvs))
+          pure (if hasExtras s kvs then none else r.map .map)
         | _ => pure none
 
 /-! ### `_transform_config` -/
@@ -589,7 +608,7 @@ def transformKeys (kvs : List (CVal × CVal)) : List (CVal × CVal) :=
 
 /-- step 3: `request_policy.dns_ttl == 0` is replaced by `ksk_policy["ttl"]` when both sections are
     present (a `KeyError` when the ksk_policy section has no `ttl`) -/
-def transformDnsTtl (kvs : List (CVal × CVal)) : Res (List (CVal × CVal)) :=
+def transformDnsTtl (fallback : Option CVal) (kvs : List (CVal × CVal)) : Res (List (CVal × CVal)) :=
   match CVal.lookupStr kvs "ksk_policy", CVal.lookupStr kvs "request_policy" with
   | some kp, some rp =>
     match rp with
@@ -601,7 +620,7 @@ def transformDnsTtl (kvs : List (CVal × CVal)) : Res (List (CVal × CVal)) :=
         if i != 0 then pure kvs else
         match kp with
         | .map kpk =>
-          match CVal.lookupStr kpk "ttl" with
+          match (CVal.lookupStr kpk "ttl").or fallback with
           | none => err .key
           | some t => pure (setKey kvs "request_policy" (.map (setKey rpk "dns_ttl" t)))
         | _ => err .type        -- `str` / `list` indexed with "ttl"
@@ -619,10 +638,10 @@ def topLevelDict (c : CVal) : Res (List (CVal × CVal)) :=
   | .list _ => unsupported
   | _ => err .type              -- `'NoneType' object is not iterable`
 
-def transformConfig (c : CVal) : Res (List (CVal × CVal)) := do
+def transformConfig (fallback : Option CVal) (c : CVal) : Res (List (CVal × CVal)) := do
   let kvs ← topLevelDict c
   let kvs ← transformKskPolicy kvs
-  transformDnsTtl (transformKeys kvs)
+  transformDnsTtl fallback (transformKeys kvs)
 
 /-! ### `KSKMConfig.from_dict` -/
 
@@ -646,7 +665,7 @@ def positivityChecks (loaded : CVal) : Res Unit :=
   | _, _, _ => unsupported
 
 def fromDict (env : Env) (c : CVal) : Res CVal := do
-  let kvs ← transformConfig c
+  let kvs ← transformConfig env.kskTtlFallback c
   match ← validate env validateFuel false (.model "KSKMConfig") (.map kvs) with
   | none => err .validation
   | some loaded =>
@@ -742,6 +761,11 @@ def mainStatus (codes : ExitCodes) (validationCaught : Bool) (o : LoaderOutcome)
   | .validationError => if validationCaught then codes.config else uncaughtExceptionStatus
   | .otherException => uncaughtExceptionStatus
   | .keyboardInterrupt => codes.interrupt
+
+/-- the F3 behaviour switch, from the exit statuses observed by running the real `main()`:
+    does a schema-invalid configuration exit with the configuration status? -/
+def validationCaughtOf (observed : List (String × Int)) (codes : List (String × Nat)) : Bool :=
+  List.lookup "validation_error" observed == (List.lookup "config" codes).map Int.ofNat
 
 /-- what `get_config` did, from the model's `fromDict` answer (`none`: the model declines) -/
 def outcomeOf (r : Res CVal) : Option LoaderOutcome :=
